@@ -553,3 +553,87 @@ def pair_iterable_cases(target, tier):
     out.append(Case("api %s %s pair potentials as a generator" % (target, "/".join(order)), api_case, target=target, elements=order, pairs=st, nr=3, nrho=2,
                     route="func", rot=i, rewrite=False, pair_iterable=True))
   return out
+
+
+class _LateOnset(object):
+  """exactly zero inside a core radius, an arbitrary function beyond it"""
+
+  def __init__(self, name, rc):
+    self.name, self.rc, self.f = name, rc, uf(name)
+
+  def __call__(self, x):
+    if x < self.rc:
+      return 0.0
+    return self.f(x)
+
+
+def late_onset_case(target, nr=40, nrho=3, cutoff=4.875, cutoff_rho=7.5, route="func"):
+  """concrete grid, uninterpreted functions: the densities (and pair functions) are exactly 0.0 over the first 35 grid points and
+  non-zero afterwards - every row still holds the function"""
+  fs = target.endswith("_fs")
+  elements = ("Cu", "Al")
+  model = EC.Model(elements, {("Al", "Cu"): ("Cu", "Al"), ("Al", "Al"): None, ("Cu", "Cu"): ("Cu", "Cu")}, fs=fs)
+  res = new_result("api %s %s nr=%d: functions that are exactly zero up to r=4.3125 %s" % (target, model.describe(), nr, route))
+  rc = 4.3125      # (step 0.125: every grid point is an exact binary fraction; 35 leading points lie inside the core)
+
+  def mk(name):
+    if name.startswith("rho_") or name.startswith("phi_"):
+      return _LateOnset(name, rc)
+    return Mutable(name)
+
+  def fn():
+    eampots, pairpots, d, q = EC.build_objects(model, mk, EC.sym_meta)
+    out = Sink()
+    write_target(target, route, model, eampots, pairpots, d, q, cutoff, nr, cutoff_rho, nrho, out)
+    return out.getvalue()
+
+  def build(path, wrong=False):
+    if path.exc is not None:
+      raise Structural("exception", "%s: %s" % (type(path.exc).__name__, path.exc))
+    dr = rv(cutoff) / rv(nr - 1) * (2 if wrong else 1)
+    drho = rv(cutoff_rho) / rv(nrho - 1)
+    base = EC.z3_alg()
+
+    def fnn(name):
+      f = base.fn(name)
+      if name.startswith("rho_") or name.startswith("phi_"):
+        return lambda x: z3.If(x < rv(rc), rv(0), f(x))
+      return f
+    alg = EC.Alg(fnn, rv)
+    try:
+      parsed, O, E = observed_expected(target, path.value, model, nr, nrho, dr, drho, alg, EC.z3_meta)
+    except eamtables.FormatError as e:
+      raise Structural("format", "reader rejects the file: %s" % e)
+    vcs = EC.vcs_from(path, O, E)
+    for v in vcs:
+      v.info = dict(v.info or {}, key="late-onset-" + (v.info or {}).get("key", "slot"))
+    return vcs
+
+  def replay(v, w, path, structural):
+    import io
+    names = EC.function_names(model)
+    funcs = EC.concrete_functions(names)
+    cfuncs = {n: ((lambda x, g=g: 0.0 if x < rc else g(x)) if (n.startswith("rho_") or n.startswith("phi_")) else g) for n, g in funcs.items()}
+    try:
+      eampots, pairpots, d, q = EC.build_objects(model, lambda name: cfuncs[name], EC.conc_meta)
+      out = io.StringIO()
+      write_target(target, route, model, eampots, pairpots, d, q, cutoff, nr, cutoff_rho, nrho, out)
+      parsed, O, E = observed_expected(target, out.getvalue(), model, nr, nrho, cutoff / (nr - 1), cutoff_rho / (nrho - 1), EC.float_alg(cfuncs), EC.conc_meta)
+      bad = EC.compare_dicts(O, E, 1e-12, 1e-12) if EP.STYLE.get(target) else EC.compare_dicts(O, E, 1e-9, 6e-7)
+    except Exception as e:  # noqa
+      bad = ["%s: %s" % (type(e).__name__, e)]
+    rec = dict(kind="eam_late_onset", target=target, model=model.describe(), nr=nr, nrho=nrho, cutoff=cutoff, cutoff_rho=cutoff_rho, mismatches=bad[:10])
+    return (bool(bad), "densities and pair functions exactly zero for r < %r: " % rc + ("; ".join(bad[:3]) or "agrees with the model"), rec)
+
+  shims.install()
+  try:
+    explore_and_check(res, fn, build, replay=replay, negative=lambda p: build(p, wrong=True))
+  finally:
+    shims.uninstall()
+  res["nontrivial"] = res["vcs"]
+  return res
+
+
+def late_onset_cases(target, tier):
+  from symx.run import Case
+  return [Case("api %s late onset %s" % (target, r_), late_onset_case, target=target, route=r_) for r_ in (("func",) if tier == "quick" else ("func", "class"))]
